@@ -153,3 +153,22 @@ Example C07_failure_heals_hypotheses :
   find_ctype dr_cfg 1 = Some (CType 1 [(10%N, 1%N); (11%N, 2%N)] [] 99) /\
   md_empty (conv_diff (CType 1 [(10%N, 1%N); (11%N, 2%N)] [] 99) (MDiff ∅ {[ 2%N := VInt 1 ]} ∅)) = false.
 Proof. vm_compute. split; reflexivity. Qed.
+
+(** the same for an 'added' event: the failed creation is parked (nothing on the target side, the
+    expected-state caches already hold the object), the healthy retry yields the failure-free state *)
+From Hermes Require Import Proofs.ClientHealAdd.
+Theorem C07_added_failure_then_retry_is_failure_free : forall c outcome,
+  cc_retention c = None -> cc_remed c = RDisabled ->
+  forall r l n cs stp prt rty fr e ct a,
+  find_ctype c (ce_t e) = Some ct -> ct_fks ct = [] -> ce_kind e = KAdded a ->
+  is_empty_map (conv_obj ct a) = false ->
+  r !! ce_id e = None -> l !! ce_id e = None ->
+  outcome n = HFail -> outcome (S n) = HOk ->
+  let st1 := fst (process_remote c outcome FUEL (hstate r l n cs stp prt rty fr) e None true false) in
+  (r_live st1 = r /\ l_live st1 = l /\ length (queue st1) = 1%nat) /\
+  retry_queue c outcome st1 =
+    hstate (<[ce_id e := a]> r) (<[ce_id e := conv_obj ct a]> l) (S (S n))
+           (cs ++ [add_call e ct a rty HFail] ++ [add_call e ct a true HOk])
+           (ce_step e) (ce_partial e) false false.
+Proof. exact added_failure_heals. Qed.
+Print Assumptions C07_added_failure_then_retry_is_failure_free.
